@@ -121,3 +121,110 @@ fn function_is_pruned__contract() {
     std::mem::forget(plan);
     std::mem::forget(rt);
 }
+
+// =====================================================================================================
+// C15: host-policy gate.  eval_process_command_call(command, Run, ..)
+//   ensures  allow_process == false  => Err(ProcessDenied), and neither ProcessCommand::validate nor the platform runner is reached;
+//            allow_process == true   => the runner receives the spec validate() produced from THIS command and the policy's own caps
+// =====================================================================================================
+static mut VALIDATE_CALLS: usize = 0;
+static mut RUN_CALLS: usize = 0;
+static mut RUN_ARGS_PTR: usize = 0;
+static mut RUN_ARGS_LEN: usize = 0;
+static mut RUN_PROGRAM_PTR: usize = 0;
+static mut RUN_CAPS_OK: bool = false;
+static NOARGS: crate::syntax::parser::ArgList<'static> = crate::syntax::parser::ArgList { args: &[] };
+
+fn validate__must_not_run<'b, 'a>(_c: &'b ProcessCommand<'a>, _caps: &crate::process::ProcessCaps) -> Result<crate::process::ProcessSpec<'b>, ProcessError>
+where
+    'a: 'a,
+{
+    unsafe { VALIDATE_CALLS += 1 };
+    Err(ProcessError::Denied)
+}
+fn runner__record<'arena>(spec: &crate::process::ProcessSpec<'_>, caps: &crate::process::ProcessCaps, _arena: &'arena Arena) -> Result<crate::process::ProcessResult<'arena>, ProcessError> {
+    unsafe {
+        RUN_CALLS += 1;
+        RUN_ARGS_PTR = spec.args.as_ptr() as usize;
+        RUN_ARGS_LEN = spec.args.len();
+        RUN_PROGRAM_PTR = spec.program.as_ptr() as usize;
+        RUN_CAPS_OK = caps.max_args == 7 && caps.max_timeout_ms == 1234;
+    }
+    Err(ProcessError::Unsupported)
+}
+
+// error conversion formats io::Error text (core::fmt), irrelevant to the gate: replaced by a constant
+fn map_process_error__stub<'a>(_err: ProcessError) -> RuntimeErrorKind
+where
+    'a: 'a,
+{
+    RuntimeErrorKind::ProcessUnsupported
+}
+
+fn mk_command(arena: &'static Arena, nargs: usize) -> ProcessCommand<'static> {
+    let argv: &'static mut [ArenaString<'static>; 2] = Box::leak(Box::new([
+        unsafe { ArenaString::from_raw_parts(NonNull::new("x".as_ptr().cast_mut()).unwrap(), 1, arena) },
+        unsafe { ArenaString::from_raw_parts(NonNull::new("y z".as_ptr().cast_mut()).unwrap(), 3, arena) },
+    ]));
+    ProcessCommand {
+        program: unsafe { ArenaString::from_raw_parts(NonNull::new("prog".as_ptr().cast_mut()).unwrap(), 4, arena) },
+        args: unsafe { Vec::from_raw_parts_in(argv.as_mut_ptr(), nargs, 2, arena) },
+        cwd: None,
+        env: Vec::new_in(arena),
+        stdin: crate::process::StdinPolicy::Inherit,
+        stdout: OutputPolicy::Inherit,
+        stderr: OutputPolicy::Inherit,
+        timeout_ms: Some(5),
+    }
+}
+
+// @harness property=C15 fn=Runtime::eval_process_command_call kind=proof tier=quick cfg=release timeout=600 domain="single path (policy forbids processes); callees validate / platform runner replaced by must-not-run recorders; command with 0..=2 arguments"
+#[kani::proof]
+#[kani::unwind(22)]
+#[kani::stub(ProcessCommand::validate, validate__must_not_run)]
+#[kani::stub(<crate::sys::unix::UnixProcessRunner as crate::sys::ProcessRunner>::run, runner__record)]
+#[kani::stub(Runtime::map_process_error, map_process_error__stub)]
+fn process_run__denied_by_policy() {
+    let arena = bk::mk_arena(1);
+    let mut rt = mk_runtime(arena, arena);
+    rt.host_policy = HostPolicy { allow_process: false, process: crate::process::ProcessCaps::defaults() };
+    let nargs: usize = kani::any();
+    kani::assume(nargs <= 2);
+    let cmd = mk_command(arena, nargs);
+    let r = rt.eval_process_command_call(&cmd, ProcessCommandBuiltin::Run, &NOARGS, SP);
+    // (the result is inspected by reference and forgotten: Value's recursive drop glue explodes under unwinding)
+    assert!(matches!(&r, Err(e) if matches!(e.kind, RuntimeErrorKind::ProcessDenied)), "post: refused with ProcessDenied");
+    std::mem::forget(r);
+    assert!(unsafe { VALIDATE_CALLS } == 0 && unsafe { RUN_CALLS } == 0, "post: refused before validation and before anything is spawned");
+    kani::cover!(nargs == 2, "cover: command with arguments");
+    std::mem::forget(cmd);
+    std::mem::forget(rt);
+}
+
+// @harness property=C15 fn=Runtime::eval_process_command_call kind=bounded tier=quick cfg=release timeout=900 domain="bounded: one concrete command (program + 2 arguments, one containing a space); policy allows processes; REAL validate, platform runner replaced by a recorder"
+#[kani::proof]
+#[kani::unwind(22)]
+#[kani::stub(<crate::sys::unix::UnixProcessRunner as crate::sys::ProcessRunner>::run, runner__record)]
+#[kani::stub(Runtime::map_process_error, map_process_error__stub)]
+fn process_run__spec_reaches_runner_unchanged() {
+    let arena = bk::mk_arena(1);
+    let mut rt = mk_runtime(arena, arena);
+    let mut caps = crate::process::ProcessCaps::defaults();
+    caps.max_args = 7;
+    caps.max_timeout_ms = 1234;
+    rt.host_policy = HostPolicy { allow_process: true, process: caps };
+    let nargs: usize = 2;
+    let cmd = mk_command(arena, nargs);
+    let r = rt.eval_process_command_call(&cmd, ProcessCommandBuiltin::Run, &NOARGS, SP);
+    assert!(r.is_err(), "stub runner reports Unsupported");
+    std::mem::forget(r);
+    unsafe {
+        assert!(RUN_CALLS == 1, "post: the platform runner is called exactly once");
+        assert!(RUN_ARGS_PTR == cmd.args.as_ptr() as usize && RUN_ARGS_LEN == nargs, "post: the runner is given this command's own argument vector (same count, order, bytes)");
+        assert!(RUN_PROGRAM_PTR == cmd.program.as_str().as_ptr() as usize, "post: the runner is given this command's program");
+        assert!(RUN_CAPS_OK, "post: the runner is given the host policy's own caps");
+    }
+    kani::cover!(nargs == 2, "cover: two arguments");
+    std::mem::forget(cmd);
+    std::mem::forget(rt);
+}
